@@ -29,6 +29,18 @@ pub fn safe_parse(text: &str) -> Result<grammar::Module, String> {
     }
 }
 
+/// Where pyxis's parser says the first error of `text` is: (line, column + 1), the form in which
+/// `add_file` reports it. `None` when the text parses (or the parser panics).
+pub fn parse_error_position(text: &str) -> Option<(usize, usize, String)> {
+    match std::panic::catch_unwind(|| pyxis::parser::parse_str(text)) {
+        Ok(Err(e)) => {
+            let lc = e.span().start();
+            Some((lc.line, lc.column + 1, e.to_string()))
+        }
+        _ => None,
+    }
+}
+
 pub fn parse_world(world: &World) -> Result<ParsedWorld, String> {
     let mut modules = vec![];
     for (rel, blob) in world.module_files() {
